@@ -32,11 +32,19 @@ fn build_from_parsed(
     parsed: ParseResult,
     common_context: &CommonContext,
 ) -> Result<BuildResult, Error> {
+    #[cfg(avra_rs_verif)]
+    crate::verif_hook::yield_point(3);
     let passed_0 = pass0(parsed, common_context)?;
 
+    #[cfg(avra_rs_verif)]
+    crate::verif_hook::yield_point(4);
     let passed_1 = pass1(passed_0, common_context)?;
 
+    #[cfg(avra_rs_verif)]
+    crate::verif_hook::yield_point(5);
     let passed_2 = pass2(passed_1, common_context)?;
+    #[cfg(avra_rs_verif)]
+    crate::verif_hook::yield_point(6);
 
     let device = common_context.get_device();
 
@@ -73,6 +81,8 @@ fn build_from_parsed(
 }
 
 pub fn build_str(source: &str) -> Result<BuildResult, Error> {
+    #[cfg(avra_rs_verif)]
+    crate::verif_hook::yield_point(1);
     let common_context = CommonContext::new();
 
     let parsed = parse_str(source, &common_context)?;
@@ -81,6 +91,8 @@ pub fn build_str(source: &str) -> Result<BuildResult, Error> {
 }
 
 pub fn build_file(path: PathBuf, paths: Paths) -> Result<BuildResult, Error> {
+    #[cfg(avra_rs_verif)]
+    crate::verif_hook::yield_point(2);
     let common_context = CommonContext::new();
 
     let parsed = parse_file(path, paths, &common_context)?;
